@@ -117,9 +117,8 @@ C06 = {
 }
 for k, w in C06.items():
     openf('C06', k, 'codec: ' + w, 'corpus/C06/kf.sx')
-openf('C15', 'kf_unregistered_survives', 'Stop neither closes nor waits for a connection that has not completed CONNECT when it snapshots srv.clients: after Stop returned nil the socket is still open, its serve/readLoop/writeLoop goroutines are alive, and a CONNECT sent afterwards is accepted (CONNACK 0) by the stopped broker',
-      'stress -probe stop-during-connect; Coq: C15_stop_closes_all_refuted (Proofs/StopLifeP.v, run_unregistered)',
-      stress={'mode': 'probe:stop-during-connect', 'kind': 'leak', 'match': 'had not yet sent CONNECT is still open'})
+fixed('C15', '1d02d65', 'Stop neither closed nor waited for a connection that had not completed CONNECT when it snapshotted srv.clients: after Stop returned the socket was still open, its goroutines alive, and a CONNECT sent afterwards was accepted (CONNACK 0) by the stopped broker (was kf_unregistered_survives)', 'stress -probe stop-during-connect; Coq: C15_stop_closes_all')
+fixed('C15', '9fa9d46', 'a connection that Accept had returned but newClient had not yet recorded (OnAccept hook still running) when Stop listed the connections was neither closed nor waited for and stayed open with its goroutines after Stop returned nil; addConnecting now closes a connection it records after exit() (found by the StopLife model after the first repair)', 'stress -probe stop-vs-inflight-accept; Coq: C15_stop_all_closed, C15_stop_no_connection_left')
 
 json.dump({'comment': 'Committed by hand (tools/mkkf.py); never written at run time. status=open entries are reported as KNOWN-FINDING lines, only when the failing case is of exactly that class AND the model reproduces the implementation on it; status=fixed entries suppress nothing (their witnesses stay in corpus/, so a regression is reported as a VIOLATION).',
            'findings': F}, open('/verif/known_findings.json', 'w'), indent=1)
